@@ -62,6 +62,13 @@ def cases(tier, seed):
             sp2 = G.raw(2, {"g": g, "H": [[1e-6, 0.0], [0.0, 1e-6]]}, [{"a": [1.0, 1.0], "b": 0.0, "lb": "-inf", "ub": 2.5e6}], [-1.0e6, -1.0e6], [2.0e6, 2.0e6],
                         [2.0e6 - off, 1.0], f"bigbox_near_bound_cons|{off}|{g}")
             out.append({"t": "A", "spec": sp2, "cfg": {"iteration_limit": HORIZON[tier]}, "sc": None})
+    # (A4) rows without any bound next to ordinary rows
+    for obj in ("qdiag", "qin"):
+        for vk in (["free", "free"], ["boxed", "lower"]):
+            for rows in ([("affine", "freerow")], [("affine", "freerow"), ("affine", "eqoff")], [("sphere", "upper"), ("bilinear", "freerow")]):
+                spec = S.mk(2, obj, rows, vk)
+                for sc in G.scalings_of(spec, (0, 1)):
+                    out.append({"t": "A", "spec": spec, "cfg": {"iteration_limit": HORIZON[tier]}, "sc": sc})
     # (A3) bounds that are not binary fractions, active at the solution
     for obj in ("qdiag", "qfull", "cubic", "lin"):
         for vk in (["odd", "odd"], ["odd", "free"], ["boxed", "odd"]):
@@ -103,6 +110,19 @@ def integration_specs(tier):
             for obj in objs:
                 for x0i in ((2, 1) if tier == "quick" else (2, 0, 1, 3)):   # 1 and 3 start on the bounds
                     out.append(S.mk(2, obj, rows, vk, x0_idx=x0i, tight=False))
+    # starts on the boundary where one gradient component is EXACTLY zero (tie-break by the second derivative) while another variable
+    # sits on a bound with a gradient pointing into the box
+    import numpy as _np
+    ties = [([[2.0, -1.0], [-1.0, 2.0]], [1.0, 1.0], ["inf", "inf"], [1.0, 1.0], [0.0, -2.0]),
+            ([[3.0, -1.0], [-1.0, 2.0]], ["-inf", -2.0], [0.5, 0.25], [0.5, 0.25], [0.0, 2.0]),
+            ([[3.0, -1.0], [-1.0, 2.0]], ["-inf", -2.0], [0.5, 0.25], [0.5, 0.25], [2.0, 0.0]),
+            ([[2.0, 1.0, 0.0], [1.0, 3.0, 0.0], [0.0, 0.0, 1.0]], [-1.0, -3.0, "-inf"], [2.0, 0.75, "inf"], [-1.0, 0.75, 0.0], [0.0, 1.5, 0.0]),
+            ([[2.0, 1.0, 0.0], [1.0, 3.0, 0.0], [0.0, 0.0, 1.0]], [-1.0, -3.0, "-inf"], [2.0, 0.75, "inf"], [2.0, 0.75, 0.0], [0.0, 1.5, 0.0]),
+            ([[2.0, 0.5], [0.5, 1.0]], [-1.0, -1.0], [1.0, 1.0], [1.0, 1.0], [0.0, 1.0]),
+            ([[2.0, 0.5], [0.5, 1.0]], [-1.0, -1.0], [1.0, 1.0], [-1.0, 1.0], [0.0, 1.0])]
+    for Q, lb_, ub_, x0_, gr in ties:
+        q = (_np.array(gr) - _np.array(Q).dot(_np.array(x0_))).tolist()
+        out.append(G.raw(len(x0_), {"H": Q, "g": q}, [], lb_, ub_, x0_, f"boundary_tie|{Q}|{x0_}|{gr}"))
     # coupled convex QPs started ON an upper bound whose multiplier changes sign along the flow
     for H, g, ub, x0 in (([[1.0, 1.0], [1.0, 2.0]], [-2.0, -1.0], ["inf", 0.0], [0.0, 0.0]), ([[1.0, 1.0], [1.0, 2.0]], [-1.0, -2.0], [0.0, "inf"], [0.0, 0.0]),
                          ([[1.0, 1.0], [1.0, 2.0]], [-2.0, 1.0], ["inf", 0.0], [0.0, 0.0]), ([[2.0, 1.5], [1.5, 2.0]], [-3.0, 0.5], [4.0, 0.0], [0.0, 0.0]),
